@@ -2,6 +2,7 @@ package main
 
 import (
 	"github.com/tsawler/tabula/zzharness/props/c01"
+	"github.com/tsawler/tabula/zzharness/props/c02"
 	"github.com/tsawler/tabula/zzharness/props/c03"
 	"github.com/tsawler/tabula/zzharness/props/c04"
 	"github.com/tsawler/tabula/zzharness/props/c10"
@@ -9,6 +10,7 @@ import (
 
 func registerAll() {
 	register(c01.New())
+	register(c02.New())
 	register(c03.New())
 	register(c04.New())
 	register(c10.New())
